@@ -62,10 +62,10 @@ Proof.
   - destruct (find_proc _ w); [|discriminate].
     apply (EDG_LK (s, []) s' outs HW); [|reflexivity].
     eapply LK_on_remove_worker; [exact HQA | apply WI_worker_sets_ok; exact (inv_w _ HI) | exact H].
-  - apply EDG_egrow. change (egrow (fm (core_of (s, []))) (fm (core_of (s', outs)))).
+  - destruct (bad_submit_lengths _ _); [inversion H; subst; apply EDG_tasks; reflexivity|]. apply EDG_egrow. change (egrow (fm (core_of (s, []))) (fm (core_of (s', outs)))).
     eapply (submit_array_fwd (s, [])); [exact (inv_fresh _ HI) | exact P | | exact H].
     destruct entries; exact Hwf.
-  - destruct (bad_graph_rq _ _); [inversion H; subst; apply EDG_tasks; reflexivity|].
+  - destruct (bad_graph_rq _ _); [inversion H; subst; apply EDG_tasks; reflexivity|]. destruct (dead_dep _ _ _); [inversion H; subst; apply EDG_tasks; reflexivity|].
     apply EDG_egrow. change (egrow (fm (core_of (s, []))) (fm (core_of (s', outs)))).
     eapply (fun X => proj1 (submit_graph_X (s, []) _ _ _ _ (s', outs) (inv_fresh _ HI) P (inv_cb _ HI) X)). exact H.
   - apply EDG_tasks. unfold handle_open in H. inversion H; subst. reflexivity.
